@@ -183,6 +183,7 @@ def render_stmt(stmt, top: str, mod, scope: str, ind: str) -> list[str]:
             return lines
         lines.append(f"{ind}def {stmt['name']}({stmt.get('params', '')}){ret}:")
         lines.append(f'{ind}    """{tag}"""')
+        lines += [f"{ind}    {line}" for line in stmt.get("body_lines", ())]
         return lines
     if t == "val":
         qual = f"{scope}.{stmt['name']}"
@@ -246,9 +247,11 @@ class CPythonImportError(Exception):
     """The generated package could not be imported: a bug of the generator, never a verdict."""
 
 
-def cpython_import(root: Path, top: str, case) -> dict[str, types.ModuleType]:
+def cpython_import(root: Path, top: str, case, after=None) -> dict[str, types.ModuleType]:
     """Import every module of the package in-process and return {model path: module object}; interpreter state
-    (sys.modules, sys.path, importer caches) is restored. Module objects stay usable (their dicts are kept)."""
+    (sys.modules, sys.path, importer caches) is restored. Module objects stay usable (their dicts are kept).
+    `after(modules)`, if given, runs while the package is still importable (e.g. to call functions whose bodies
+    import); its result is stored under the key "$after"."""
     root_s = str(root)
     sys.path.insert(0, root_s)
     importlib.invalidate_caches()
@@ -258,7 +261,11 @@ def cpython_import(root: Path, top: str, case) -> dict[str, types.ModuleType]:
         out = {}
         for mod in case["mods"]:
             out[mod["path"]] = importlib.import_module(dotted(top, mod["path"]))
+        if after is not None:
+            out["$after"] = after(out)
         return out
+    except CPythonImportError:
+        raise
     except Exception as exc:  # noqa: BLE001
         raise CPythonImportError(f"{type(exc).__name__}: {exc}\n{show(case, top)}") from exc
     finally:
